@@ -448,6 +448,7 @@ func runAuthz(c *Ctx, plan any) {
 		}
 	}
 	// moderation actions, as the target's own loop applies them
+	staleKick := map[string]string{} // client id -> why the kick action it is handling is out of place
 	w.onAction = func(sc *simClient, st rtpconn.VerifClientState, typ, desc string, enter bool) {
 		if sc == nil {
 			return
@@ -547,10 +548,46 @@ func runAuthz(c *Ctx, plan any) {
 			if !justified {
 				c.Violation("C11.kick-without-op", "client %s was kicked, but no operator of its group asked for that (%s)", st.Id, desc)
 			}
+			// ... and the operator's authority ends at its own group: a kick
+			// that was asked for while the target was in the operator's group
+			// must not throw it out of another group it has moved to since
+			if justified && st.InGroup && !(g != nil && g.Autokick) {
+				same := false
+				var who *handled
+				chk := func(h *handled) {
+					if h.Type == "useraction" && h.Kind == "kick" && h.Dest == st.Id && h.Before.InGroup && contains2(h.Before.Permissions, "op") {
+						who = h
+						if h.Before.Group == st.Group {
+							same = true
+						}
+					}
+				}
+				for _, h := range w.handledL {
+					chk(h)
+				}
+				for _, h := range w.inflight {
+					chk(h)
+				}
+				// (judged when the client is told that it has been kicked out:
+				// the server may see the stale action and ignore it)
+				if !same && who != nil {
+					staleKick[st.Id] = fmt.Sprintf("client %s, a member of group %s by then, is thrown out by a kick that %s asked for as an operator of group %s: the kick was queued while the target was there and is carried out after it has moved on; its issuer holds nothing in %s", st.Id, st.Group, who.Before.Id, who.Before.Group, st.Group)
+				} else {
+					delete(staleKick, st.Id)
+				}
+			} else {
+				delete(staleKick, st.Id)
+			}
 		}
 	}
 	// replies that disclose something must follow an authorised request
 	w.onClientMsg = func(sc *simClient, rm recvMsg) {
+		if rm.Type == "usermessage" && rm.Kind == "kicked" {
+			if why, ok := staleKick[sc.id]; ok {
+				c.Violation("C11.kick-across-groups", "%s", why)
+				return
+			}
+		}
 		reqKind := ""
 		switch {
 		case rm.Type == "usermessage" && rm.Kind == "tokenlist":
